@@ -396,6 +396,18 @@ func (cs *ContractSet) ParseFile(path, pkgPath string) error {
 					continue
 				}
 				fc.Key = key
+				// optional positional names, receiver first: "func (t *T) M (t, tx, leaf)" - the clauses then keep working
+				// when the code renames a parameter
+				if m := headerRe.FindStringIndex("func " + it.rest); m != nil {
+					tail := strings.TrimSpace(("func " + it.rest)[m[1]:])
+					if strings.HasPrefix(tail, "(") && strings.HasSuffix(tail, ")") {
+						for _, q := range strings.Split(tail[1:len(tail)-1], ",") {
+							if q = strings.TrimSpace(q); q != "" {
+								fc.Params = append(fc.Params, q)
+							}
+						}
+					}
+				}
 				if prev, dup := cs.Funcs[pkgPath+"."+key]; dup {
 					// a second block for the same function is an additional behaviour (named by its "behavior" clause)
 					prev.Behaviors = append(prev.Behaviors, fc)
